@@ -61,7 +61,7 @@ def run(ctx):
     def add(kind, rq, expect_sig_ok):
         cases.append(dict(config=CFG, request=rq.wire()))
         meta.append((kind, rq, expect_sig_ok))
-    nb = 12 if ctx.quick else 120
+    nb = 15 if ctx.quick else 120
     contents = [b"hello", b"", b"\r\n", b"\r\n--", b"a\r\n--BOUND", b"\r\r\n-", b"line1\r\nline2\r\n", bytes(range(256)), b"--", b"\r\n--x\r\n"]
     for it in range(nb):
         boundary = rng.choice(["----VerifBoundary7MA4YWxk", "BOUND", "b", "x-y_z"])
@@ -75,7 +75,9 @@ def run(ctx):
                             [("x-amz-meta-a", "1"), ("x-amz-meta-a", "2")], [("x-amz-meta-a", "2"), ("x-amz-meta-a", "1")],      # of a repeated field the last one counts
                             [("X-Amz-Meta-C", "zz"), ("x-amz-meta-c", "mm"), ("x-amz-meta-C", "aa")], [("Content-Type", "text/zzz"), ("content-type", "text/aaa")],
                             [("unknown-field", "zzz")], [("success_action_status", "201")],
-                            [("x-amz-meta-", "empty-name")], [("Key", "uploads/upper-case-name")]])
+                            [("x-amz-meta-", "empty-name")], [("Key", "uploads/upper-case-name")],
+                            # a form may repeat the bucket (some clients do): the object goes to the bucket the request is addressed to, whatever the field says
+                            [("bucket", "my-bucket")], [("bucket", "another-bucket")], [("Bucket", "private")]])
         rng.choice(extras)
         extra = extras[it % len(extras)]          # every kind of extra field in every run
         after = rng.choice([None, None, [("submit", "Upload to Amazon S3")], [("x-amz-meta-late", "after-file")]])
